@@ -159,6 +159,25 @@ func registerIntrinsics(x *Exec) {
 		return res
 	}
 	in["internal/bytealg.Count"] = in["internal/bytealg.CountString"]
+	// IndexString / Index (assembly in Go's runtime): the first offset at which
+	// b occurs in a, or -1
+	indexString := func(x *Exec, fr *frame, args []Value, _ *ssa.CallCommon) Value {
+		a, b := args[0].(Agg), args[1].(Agg)
+		pa, la, pb, lb := t(a[0]), t(a[1]), t(b[0]), t(b[1])
+		n, m := x.lenBound(pa, la, 1), x.lenBound(pb, lb, 1)
+		as, bs := x.readBytes(pa, la, n, "Index"), x.readBytes(pb, lb, m, "Index")
+		res := smt.Const(64, ^uint64(0))
+		for i := n; i >= 0; i-- {
+			match := smt.Ule(smt.Add(c64(uint64(i)), lb), la)
+			for j := 0; j < m && i+j < n; j++ {
+				match = smt.BAnd(match, smt.BOr(smt.Ule(lb, c64(uint64(j))), smt.Eq(as[i+j], bs[j])))
+			}
+			res = smt.Ite(match, c64(uint64(i)), res)
+		}
+		return res
+	}
+	in["internal/bytealg.IndexString"] = indexString
+	in["internal/bytealg.Index"] = indexString
 	in["internal/bytealg.Equal"] = func(x *Exec, fr *frame, args []Value, _ *ssa.CallCommon) Value {
 		a, b := args[0].(Agg), args[1].(Agg)
 		return x.stringEq(Agg{a[0], a[1]}, Agg{b[0], b[1]})
@@ -256,6 +275,11 @@ func registerIntrinsics(x *Exec) {
 	in[pRT+"srand"] = noop
 	in[pRT+"fastrand"] = func(x *Exec, fr *frame, args []Value, _ *ssa.CallCommon) Value {
 		x.Stubs["C.rand -> arbitrary value"] = true
+		if len(x.randQueue) > 0 {
+			v := x.randQueue[0]
+			x.randQueue = x.randQueue[1:]
+			return smt.Const(32, v)
+		}
 		return x.M.Fresh("rand", 32)
 	}
 	in["fmt.Errorf"] = func(x *Exec, fr *frame, args []Value, _ *ssa.CallCommon) Value {
